@@ -29,10 +29,10 @@ CLAIMED = {
 
 CLAIMED.update({
     "C02": ("trk", "exploration",
-            "A PathTpc is grown over generated networks by a seeded history of extend calls (every way of partitioning the route, empty extensions, reload of the half-built path in yaml/bincode/json between two extensions); after every extension the enforced profile is compared, at the midpoint of every interval between breakpoints and at every breakpoint from the right, with the pointwise minimum of the restrictions read from the network (tail-end extension by train length, gating by train parameters, per-train-type sets re-implemented independently). Operation history only: there is no fault in this property beyond the reload (DESIGN 5).",
+            "A PathTpc is grown over generated networks by a seeded history of extend calls (every way of partitioning the route, empty extensions, reload of the half-built path in yaml/bincode/json between two extensions); after every extension the enforced profile is compared, at the midpoint of every interval between breakpoints and at every breakpoint from the right, with the pointwise minimum of the restrictions read from the network (tail-end extension by train length, gating by train parameters, per-train-type sets re-implemented independently); a 0.04 % share of the runs judges the path of a moving train simulation the same way (see C13). Operation history only: there is no fault in this property beyond the reload (DESIGN 5).",
             "Trusted: the pointwise-minimum reference (~60 lines); exact comparison (the code only copies and compares speeds)."),
     "C13": ("trk", "exploration",
-            "Same runs as C02 with equality instead of <=, plus canonical form (sorted, no equal-valued neighbours, first point at the path start); generator dense in restrictions nested inside another's extent, ending between two existing points, zero-length and duplicate-bound restrictions. Operation history only (DESIGN 5).",
+            "Same runs as C02 with equality instead of <=, plus canonical form (sorted, no equal-valued neighbours, first point at the path start); generator dense in restrictions nested inside another's extent, ending between two existing points, zero-length and duplicate-bound restrictions. 0.04 % of the runs (C02 likewise) are speed-limited train simulations of world trn whose own path - extended while the train moves, train parameters derived by TrainConfig from a car list that may name car types with zero cars, restriction sets gated at the train's own axle count - is judged by the same reference after every extend_path. Operation history only (DESIGN 5).",
             "Trusted: as C02; a restriction covers [start, end)."),
     "C06": ("trk", "exploration",
             "Differential, bit-exact: every seeded partition of a route into extend calls (with empty extensions and yaml/bincode reloads in between) yields a PathTpc equal to the one-call build; reference: link points at cumulative lengths, elevation at every breakpoint and 3 interior positions per segment equal to the walk over the route's own elevation points, grades = slopes, cumulative curve resistance = documented three-branch formula, catenary limits shifted, count bookkeeping; non-contiguous / unreal extensions must be refused; panics are violations. Operation history only (DESIGN 5).",
@@ -44,7 +44,7 @@ CLAIMED.update({
 
 CLAIMED.update({
     "C03": ("trn", "exploration",
-            "Speed-limited trains built through TrainSimBuilder on generated networks, driven by the simulator's own step loop with a simulated dispatcher->train authority channel (extensions delivered early, just in time, late - the train must stand at the end of authority and restart -, in batches, preceded by empty extensions), by the protocol of walk_timed_path on generated timed paths (ties, out-of-order times), and whole-path; crash/restore of the whole simulation between steps; dt in {0.5, 1, 2} s. Per executed step: speed >= 0, <= limit in force, <= posted restriction at the front (pointwise-minimum reference), target <= limit, inside the path; end: Ok => at rest in the stopping window, Err => names a cause, panic = violation; bounded liveness: in the final walk a train left at rest with a zero target outside the stopping window is handed to the shipped walk(), which must end the run with a descriptive error (an endless loop is caught by the watchdog), and a run must arrive within 4 x remaining metres + 3000 steps after the last delivery and the last fault. The shipped walk()/walk_timed_path() are then run on the same scenario and must reproduce the driven run bit for bit.",
+            "Speed-limited trains built through TrainSimBuilder on generated networks, driven by the simulator's own step loop with a simulated dispatcher->train authority channel (extensions delivered early, just in time, late - the train must stand at the end of authority and restart -, in batches, preceded by empty extensions), by the protocol of walk_timed_path on generated timed paths (ties, out-of-order times), and whole-path; crash/restore of the whole simulation between steps; dt in {0.5, 1, 2} s; a fifth of the cases carry restriction sets gated by the train's axle count with thresholds at / one off the train's own value (every compare type). Per executed step: speed >= 0, <= limit in force, <= posted restriction at the front (pointwise-minimum reference), target <= limit, inside the path; end: Ok => at rest in the stopping window, Err => names a cause, panic = violation; bounded liveness: in the final walk a train left at rest with a zero target outside the stopping window is handed to the shipped walk(), which must end the run with a descriptive error (an endless loop is caught by the watchdog), and a run must arrive within 4 x remaining metres + 3000 steps after the last delivery and the last fault. The shipped walk()/walk_timed_path() are then run on the same scenario and must reproduce the driven run bit for bit.",
             "Trusted: pointwise-minimum reference; grade bound 0.8 %; liveness bounds as stated. Friction-brake ramp-up time 0 s (builder) on most and 5-60 s on 12 % of the cases; one open finding in the latter family (C03-ramping-friction-brake-cannot-hold-the-limit-at-once). Light trains that stop short of the window end with the descriptive error introduced by the repair of finding C03-stops-short-of-window-on-final-braking-curve."),
     "C07": ("trn", "exploration",
             "Set-speed and speed-limited runs over routes mixing very short and very long links with trains shorter and longer than a link, so the cached front/rear indices cross several points per step, sit on one point, and are re-based by path extensions mid-run; crash/restore between steps (the indices are serialised state); forces recomputed per executed step from the network (elevation and curve walks over the route's own points) and from coefficients re-aggregated from the car list.",
@@ -56,7 +56,7 @@ CLAIMED.update({
             "Same runs incl. links much shorter than one step of travel, user-supplied initial front positions beyond the train length (20 % of the cases), irregular set-speed time stamps, stops at the end of authority and restarts, crash/restore; kinematic reference per executed step (time, front advance = dt x mean speed, rear = front - length, total distance, front segment / in-segment offset).",
             "Trusted: kinematic reference (~50 lines); offset tolerance 1e-5 m."),
     "C14": ("trn", "exploration",
-            "Set-speed runs with generated non-negative traces with irregular time stamps (dt jumps, plateaus, stops, accelerations and brakings beyond what the consist can deliver so both clips bind), driven by the shipped walk() and by simulator steps with crash/restore and interval changes; per step time/speed = trace, pwr_accel, pwr_res, wheel power = clip(inertia + resistance) with clips computed from published consist state only, energies accumulate that power x the trace's own dt.",
+            "Set-speed runs with generated non-negative traces with irregular time stamps (dt jumps, plateaus, stops, accelerations and brakings beyond what the consist can deliver so both clips bind), driven by the shipped walk() and by simulator steps with crash/restore and interval changes; per step time/speed = trace, pwr_accel, pwr_res, wheel power = clip(inertia + resistance) with the upper clip computed from published consist state only and the lower clip from the sum of the units' drivetrain ratings (not from the consist's derived state field), energies accumulate that power x the trace's own dt; one train in ten has its consist completed after construction through Consist::set_loco_vec, one in eight lists a car type with zero cars.",
             "Trusted: power reference (~50 lines), 1e-9 relative; upper clip includes the published rate limit."),
 })
 
@@ -74,7 +74,7 @@ CLAIMED.update({
 
 CLAIMED.update({
     "C18": ("thr", "exploration",
-            "(a) LocomotiveSimulationVec::walk(parallelize=true) through the executor seam under shuttle: batches of 1-12 generated simulations (some failing at a seeded step), 1-16 simulated workers claiming from a shared queue, every simulation step a scheduling point, cancellation after an error; seeded Random and PCT (depth 2-4) schedulers, 24 / 60 schedules per case; oracle bit-exact: every element = its own serial result (or untouched after an error), batch = serial batch, an error names a failing element, inputs unchanged. (b) cases of the worlds trn / dsp / trk / val executed under simulated RandomState keys A, A, B: identical outputs (trace hash over every observed state). (c) the real rayon branch in local pools of 1, 2, 4, 16 threads against the same oracle (observation of uncontrolled threads). (d) PoolRepeat: cases of the worlds pt / trn / dsp executed outside any pool and inside private rayon pools of 1, 2-4 and 5-16 threads (whatever the library parallelises internally then splits according to that pool size): identical traces. (e) HistoryRepeat: a case executed on a fresh thread, on a thread that has just executed a different case of the same world, and twice on one thread: identical traces (hidden state in statics, thread-locals or caches keyed too coarsely).",
+            "(a) LocomotiveSimulationVec::walk(parallelize=true) through the executor seam under shuttle: batches of 1-12 generated simulations (some failing at a seeded step), 1-16 simulated workers claiming from a shared queue, every simulation step a scheduling point, cancellation after an error; seeded Random and PCT (depth 2-4) schedulers, 24 / 60 schedules per case; oracle bit-exact: every element = its own serial result (or untouched after an error), batch = serial batch, an error names a failing element, inputs unchanged. (b) cases of the worlds trn / dsp / trk / val executed under simulated RandomState keys A, A, B: identical outputs (trace hash over every observed state). (c) the real rayon branch in local pools of 1, 2, 4, 16 threads against the same oracle (observation of uncontrolled threads). (d) PoolRepeat: cases of the worlds pt / trn / dsp executed outside any pool and inside private rayon pools of 1, 2-4 and 5-16 threads (whatever the library parallelises internally then splits according to that pool size): identical traces. (e) HistoryRepeat: a case executed on a fresh thread, on a thread that has just executed a different case of the same world, and twice on one thread: identical traces (hidden state in statics, thread-locals or caches keyed too coarsely). (f) NetBatch: the whole-network batch operation Network::set_speed_set_for_train_type on chains of 40-40000 links of which 0-5 cannot be converted (two of them either side of a point at which a divide-and-conquer executor would split the sequence), executed outside any pool and twice inside private rayon pools of 1, 2-4, 5-16 threads: result, error text and the state the network is left in must be identical (observation of uncontrolled threads, like (c)).",
             "Trusted: the executor stub's fidelity to rayon's try_for_each contract (cross-checked by (c)); a failure replays from (case, scheduler seed, iteration count) because shuttle's seeded schedulers are deterministic."),
 })
 
